@@ -1,0 +1,17 @@
+// Copyright ©2015 The bíogo Authors. All rights reserved.
+// Use of this source code is governed by a BSD-style
+// license that can be found in the LICENSE file.
+
+//go:build verif
+
+package csi
+
+// VerifReg2bin exposes the CSI bin function (verif build tag only).
+func VerifReg2bin(beg, end int64, minShift, depth uint32) uint32 {
+	return reg2bin(beg, end, minShift, depth)
+}
+
+// VerifReg2bins exposes the CSI bin list function (verif build tag only).
+func VerifReg2bins(beg, end int64, minShift, depth uint32) []uint32 {
+	return reg2bins(beg, end, minShift, depth)
+}
